@@ -769,6 +769,53 @@ def tokenwise_reference(lines, macros):
     return out
 
 
+def sequential_reference(lines, macros):
+    """What `_apply_macros` promises for ANY macro list (from the statement, no model): the macros are
+    applied one after the other in preamble order; each pass replaces every use `$name` (longest run of
+    letters, digits, underscores) whose name is exactly the key.  Text produced by an earlier pass is
+    seen by the later passes, so a value may use macros that are defined LATER."""
+    if not lines:
+        return []
+    body = "\n".join(lines)
+    ident = set("abcdefghijklmnopqrstuvwxyzABCDEFGHIJKLMNOPQRSTUVWXYZ0123456789_")
+    for k, v in macros:
+        v = v.strip("{}")
+        res, i = [], 0
+        while i < len(body):
+            if body[i] == "$":
+                j = i + 1
+                while j < len(body) and body[j] in ident:
+                    j += 1
+                res.append(v if body[i + 1:j] == k else body[i:j])
+                i = j
+            else:
+                res.append(body[i])
+                i += 1
+        body = "".join(res)
+    return body.split("\n")
+
+
+def gen_chained_macros(rng):
+    """macros whose values use other macros, defined later or earlier, depth 2-3; and a body using them"""
+    leaves = [("acc", "R0"), ("step", "R1"), ("arr", "@0"), ("one", "1")]
+    mids = [("bump", "{add $acc $acc $step}"), ("cell", "$arr[$acc]"), ("inc", "{add $acc $acc $one}")]
+    tops = [("twice", "{$bump}"), ("put", "{store $step $cell}")]
+    chosen = rng.sample(leaves, rng.randrange(2, 5)) + rng.sample(mids, rng.randrange(1, 4))
+    if rng.random() < 0.5:
+        chosen += rng.sample(tops, rng.randrange(1, 3))
+    order = rng.choice(["uses-first", "defs-first", "shuffled"])
+    if order == "uses-first":
+        chosen = chosen[::-1]
+    elif order == "shuffled":
+        rng.shuffle(chosen)
+    keys = [k for k, _ in chosen]
+    body = []
+    for _ in range(rng.randrange(1, 5)):
+        k = rng.choice(keys)
+        body.append(rng.choice(["$%s", "  $%s  ", "set $%s 1", "$%s // c"]) % k if rng.random() < 0.8 else "set R5 2")
+    return chosen, body, order
+
+
 def tokenwise_applicable(lines, macros):
     """hypotheses of `macros_tokenwise`: no value contains `$` or a newline, and no use is directly followed by `$`"""
     if any("$" in v or "\n" in v for _, v in macros):
